@@ -43,6 +43,34 @@ __attribute__((noinline)) void h_s1_antisym(void) {
   __verif_check(p2[2] == -p1[2]);
   __verif_check(E2 == -E1);
 }
+// S2: Galilean boost - the flux through a face moving with velocity w equals the flux computed in the rest frame of the face
+// (states boosted by -w, static face) transformed back with the Euler boost:  m' = m,  E' = E + w.p + |w|^2 m / 2,  p' = p + m w
+__attribute__((noinline)) void h_s2_galilean(void) {
+  double gamma, rhoL, uL[3], PL, rhoR, uR[3], PR, vf[3];
+  in_state(gamma, rhoL, uL, PL, rhoR, uR, PR, vf);
+#ifdef CASE_NONVAC
+  __CPROVER_assume(rhoL > 0. && PL > 0. && rhoR > 0. && PR > 0.);
+#endif
+#ifdef CASE_VACL
+  __CPROVER_assume(rhoL == 0. && rhoR > 0. && PR > 0.);
+#endif
+#ifdef CASE_VACR
+  __CPROVER_assume(rhoR == 0. && rhoL > 0. && PL > 0.);
+#endif
+  HLLCRiemannSolver s(gamma);
+  CoordinateVector<> UL(uL[0], uL[1], uL[2]), UR(uR[0], uR[1], uR[2]), N(NX, NY, NZ), VF(vf[0], vf[1], vf[2]), ZERO(0., 0., 0.);
+  CoordinateVector<> p1, p2; double m1 = 0, E1 = 0, m2 = 0, E2 = 0;
+  s.HLLCRiemannSolver::solve_for_flux(rhoL, UL, PL, rhoR, UR, PR, m1, p1, E1, N, VF);                 // moving face
+  s.HLLCRiemannSolver::solve_for_flux(rhoL, UL - VF, PL, rhoR, UR - VF, PR, m2, p2, E2, N, ZERO);     // rest frame of the face
+  const double w2 = VF.norm2();
+  const double E2b = E2 + (CoordinateVector<>::dot_product(VF, p2) + 0.5 * w2 * m2);                  // energy boost uses the rest-frame momentum flux
+  const CoordinateVector<> p2b = p2 + m2 * VF;
+  __verif_check(m1 == m2);
+  __verif_check(p1[0] == p2b[0]);
+  __verif_check(p1[1] == p2b[1]);
+  __verif_check(p1[2] == p2b[2]);
+  __verif_check(E1 == E2b);
+}
 uint64_t tv_flux(const uint64_t *in) {
   double d[16]; for (int k = 0; k < 14; ++k) { __builtin_memcpy(&d[k], &in[k], 8); if (!(d[k] == d[k])) d[k] = 1.; }
   double gamma = 1.1 + (in[0] % 9) * 0.1; double rhoL = d[1] < 0 ? -d[1] : d[1], PL = d[2] < 0 ? -d[2] : d[2], rhoR = d[3] < 0 ? -d[3] : d[3], PR = d[4] < 0 ? -d[4] : d[4];
@@ -52,7 +80,7 @@ uint64_t tv_flux(const uint64_t *in) {
   CoordinateVector<> p; double m = 0, E = 0;
   s.HLLCRiemannSolver::solve_for_flux(rhoL, UL, PL, rhoR, UR, PR, m, p, E, N, VF);
   uint64_t h = 0, b; double o[5] = {m, p[0], p[1], p[2], E};
-  for (int k = 0; k < 5; ++k) { __builtin_memcpy(&b, &o[k], 8); h = h * 1000003u + b; }
+  for (int k = 0; k < 5; ++k) { __builtin_memcpy(&b, &o[k], 8); if (o[k] != o[k]) b = 0x7ff8000000000000ULL; /* one NaN (sign and payload are not part of the comparison) */ h = h * 1000003u + b; }
   return h;
 }
 }
